@@ -20,7 +20,8 @@ REQUIRED_MONITORS = ('roundtrip_library_reader', 'roundtrip_reference_reader', '
 REQUIRED_CLASSES = ('format:set', 'format:default', 'count:declared', 'count:backfilled', 'vel:yes', 'vel:no',
                     'box:triclinic', 'box:vector', 'numbers:edge', 'number:99999', 'number:>=100000',
                     'coords:rounding-boundary', 'coords:widest', 'dec:1', 'dec:6', 'calls:mixed-writeline-writelines',
-                    'calls:one-record-writelines-first')
+                    'calls:one-record-writelines-first', 'boxclass:triclinic-upper', 'boxclass:triclinic-single',
+                    'boxclass:triclinic-negative')
 RULE = ('file specifications: 1..300 records x names (5 classes) x number class x coordinate class x decimals 1..6 '
         '(format set through position_format or default) x velocities x box class x count declared/back-filled x title. '
         'Non-trivial: at least 2 records. distinct = distinct (decimals, format mode, velocities, box class, count mode, '
@@ -192,7 +193,7 @@ def run_case(ctx, case):
     if i % 11 == 0:
         force['coords'] = ['rounding-boundary', 'widest', 'negative-zero'][i // 11 % 3]
     if i % 13 == 0:
-        force['box'] = ['triclinic', 'triclinic-negative', 'triclinic-tiny'][i // 13 % 3]
+        force['box'] = ['triclinic', 'triclinic-negative', 'triclinic-tiny', 'triclinic-upper', 'triclinic-single'][i // 13 % 5]
     spec = grospec.gen_spec(rng, nmax=300 if ctx.tier == 'thorough' or i % 5 == 0 else 40,
                             dec=(i % 6 + 1) if i % 3 == 0 else None, force=force)
     path = os.path.join(_tmp['dir'], f'c{os.getpid()}.gro')
@@ -201,6 +202,7 @@ def run_case(ctx, case):
     ctx.hit('count:' + ('declared' if spec['declare_count'] else 'backfilled'))
     ctx.hit('vel:' + ('yes' if spec['with_vel'] else 'no'))
     ctx.hit('box:' + ('triclinic' if spec['box_class'].startswith('tri') else spec['box_class']))
+    ctx.hit('boxclass:' + spec['box_class'])
     ctx.hit('numbers:' + spec['number_class'])
     ctx.hit('coords:' + spec['coord_class'])
     ctx.hit(f'dec:{spec["dec"]}')
